@@ -24,7 +24,7 @@ func TestMain(m *testing.M) { vkit.Main(m) }
 const tProg = "TestBrokerProgressAndShutdown"
 
 type Case struct {
-	Backend    string `json:"backend"` // channel | queue | deque | queue-bounded | lifo | queue-filtered | queue-shared | chan-shedding
+	Backend    string `json:"backend"` // channel | queue | deque | queue-bounded | lifo | queue-filtered | queue-shared | chan-shedding | deque-bounded | deque-quota | queue-quota | chan-polling
 	Capacity   int    `json:"capacity,omitempty"`
 	Parallel   bool   `json:"parallel_dispatch"`
 	Workers    int    `json:"worker_pool_size"`
@@ -58,7 +58,12 @@ func (c *Case) wanted(n int) int {
 	return n - n/3
 }
 
-func (c *Case) buffersBackend() bool { return c.Backend != "channel" }
+// buffersBackend: the back-end takes a whole burst while nobody reads (it
+// buffers without bound, or sheds).  A bounded blocking deque does not: it
+// applies back-pressure, and Publish rightly waits for the subscribers.
+func (c *Case) buffersBackend() bool {
+	return c.Backend != "channel" && c.Backend != "deque-bounded" && c.Backend != "deque-quota"
+}
 
 // mkBroker builds the broker of the case.  The second result, when not nil,
 // releases what the back-end holds besides the broker (the competing
@@ -115,6 +120,31 @@ func mkBackend(ctx context.Context, c *Case) (*pubsub.Broker[int], func()) {
 			case <-time.After(vkit.Limit()):
 			}
 		}
+	case "deque-bounded", "deque-quota":
+		// a deque with a fixed capacity, or one limited by queue options
+		// (hard limit, a soft quota that moves with the traffic, burst
+		// credit): the event loop's Send waits for room, which the
+		// workers make
+		o := pubsub.DequeOptions{Capacity: c.Capacity}
+		if c.Backend == "deque-quota" {
+			o = pubsub.DequeOptions{QueueOptions: &pubsub.QueueOptions{HardLimit: c.Capacity + 2, SoftQuota: c.Capacity, BurstCredit: 1}}
+		}
+		dq, err := pubsub.NewDeque[int](o)
+		if err != nil {
+			panic(err)
+		}
+		return pubsub.NewDequeBroker[int](ctx, dq, opts), nil
+	case "queue-quota":
+		q, err := pubsub.NewQueue[int](pubsub.QueueOptions{HardLimit: c.Capacity + 2, SoftQuota: c.Capacity, BurstCredit: 1})
+		if err != nil {
+			panic(err)
+		}
+		return pubsub.NewQueueBroker[int](ctx, q, opts), nil
+	case "chan-polling":
+		// a channel distributor in non-blocking mode: Send sheds when
+		// the buffer is full, Receive reports a skipped operation when
+		// it is empty and the workers ask again
+		return pubsub.MakeDistributorBroker[int](ctx, pubsub.DistributorChanOp(fun.NonBlocking(make(chan int, c.Capacity))), opts), nil
 	case "chan-shedding":
 		// a user-built distributor over a buffered channel whose Send
 		// never blocks: when the buffer is full the message is shed
@@ -388,7 +418,7 @@ func runCase(c *Case) (string, string) {
 
 func genCase(t *rapid.T) *Case {
 	c := &Case{
-		Backend:    rapid.SampledFrom([]string{"channel", "queue", "deque", "deque", "queue-bounded", "lifo", "queue-filtered", "queue-shared", "chan-shedding"}).Draw(t, "backend"),
+		Backend:    rapid.SampledFrom([]string{"channel", "queue", "deque", "deque", "queue-bounded", "lifo", "queue-filtered", "queue-shared", "chan-shedding", "deque-bounded", "deque-quota", "queue-quota", "chan-polling"}).Draw(t, "backend"),
 		Capacity:   rapid.IntRange(1, 4).Draw(t, "capacity"),
 		Parallel:   rapid.Bool().Draw(t, "parallel"),
 		Workers:    rapid.IntRange(0, 3).Draw(t, "workers"),
